@@ -123,6 +123,7 @@ def generate(rng, tier="quick"):
     base = W.gen_world(rng, ndefs=rng.randint(2, 7), ref_rate=rng.choice([0.4, 0.55, 0.7]),
                        nested_id_rate=rng.choice([0.15, 0.3, 0.5]), unresolvable_rate=rng.choice([0.0, 0.0, 0.05]),
                        ninstances=rng.randint(2, 4), inst_depth=rng.choice([3, 3, 4]),
+                       triggers=rng.random() < 0.6, formats=rng.random() < 0.55,
                        regex_boost=rng.random() < 0.7)
     worlds = [base]
     windex = [0]
